@@ -299,7 +299,9 @@ func runPassive(e *env, sc *script) {
 			}
 			t := base
 			t.Seq, t.Flags = x+1, rfc.ACK
-			if tsOK {
+			if tsOK && !(st.Kind == "badack" && r.Chance(1, 3)) {
+				// (a wrong acknowledgement is refused before anything else about the segment
+				// matters: one third of them arrive without the negotiated timestamp option)
 				t.RawOpts = append([]byte{1, 1}, rfc.OptTS(tsval+1, tsecr)...)
 			}
 			ackv := y + 1
